@@ -15,6 +15,7 @@ ROOT = os.path.dirname(os.path.dirname(os.path.abspath(__file__)))
 REPO = os.environ.get("UQ_REPO", "/repo")
 MOD = "github.com/refraction-networking/uquic"
 
+os.nice(19)
 ap = argparse.ArgumentParser()
 ap.add_argument("out")
 ap.add_argument("--max-per-func", type=int, default=12)
@@ -128,15 +129,27 @@ try:
 
     # static assignment of mutants to workers so that a worker's copy is touched by one job at a time
     results = []
+    import threading
+    lock = threading.Lock()
+    def dump(final=False):
+        cnt = collections.Counter(r["status"] for r in results)
+        summary = {"files": len(files), "mutants_evaluated": len(results), "mutants_selected": len(mutants), "by_status": dict(cnt),
+                   "reported_fraction_of_compiling": round(cnt["reported"] / max(1, len(results) - cnt["does not compile"]), 3), "complete": final}
+        json.dump({"summary": summary, "unreported": [r for r in results if r["status"].startswith("unreported")],
+                   "reported_sample": [r for r in results if r["status"] == "reported"][:60]}, open(args.out, "w"), indent=1)
+        return summary
     def worker(j):
-        out = []
         for i, m in enumerate(mutants):
             if i % J == j:
-                out.append(run((j, m)))
-        return out
+                r = run((j, m))
+                with lock:
+                    results.append(r)
+                    if len(results) % 50 == 0:
+                        dump()
     with concurrent.futures.ThreadPoolExecutor(max_workers=J) as ex:
-        for part in ex.map(worker, range(J)):
-            results.extend(part)
+        list(ex.map(worker, range(J)))
+    print(json.dumps(dump(final=True)))
+    sys.exit(0)
     cnt = collections.Counter(r["status"] for r in results)
     summary = {"files": len(files), "mutants": len(results), "by_status": dict(cnt),
                "reported_fraction_of_compiling": round(cnt["reported"] / max(1, len(results) - cnt["does not compile"]), 3)}
